@@ -249,7 +249,7 @@ Theorem views_agree c a k i v : Inv a ->
   /\ slice c a (ByPos [k]) = Some [(i, v)]
   /\ (scalar_key_uses_label c = true -> slice c a (ByPos1 k) = Some [(i, v)])
   /\ getitem c a [i] = Some [v]
-  /\ (ts a = false -> filter_with_ids a [i] = Some [(i, v)])
+  /\ filter_with_ids a [i] = Some [(i, v)]
   /\ (forall m, id2index a = Some m -> ids2indices a [i] = Some [k]).
 Proof.
   intros HI Hi [d [Hd Hv]]. destruct HI as [ND [D I]].
@@ -261,7 +261,6 @@ Proof.
   unfold frame_view, getitem, filter_with_ids, ids2indices; simpl.
   rewrite select_ids_singleton, select_pos_singleton, N, L; simpl.
   repeat split; auto.
-  - intros ->. reflexivity.
   - intros ->. reflexivity.
   - intros m Hm. rewrite Hm. rewrite (I m Hm). simpl. rewrite lookup_enumerate.
     assert (P : nth_error (ids (frame a)) k = Some i) by (rewrite nth_ids, N; reflexivity).
@@ -284,7 +283,7 @@ Theorem selection_reads_agree c a l d : Inv a -> data_view a = Some d ->
   let t := combine (ids_view a) d in
      slice c a (ByIds l) = select_ids l t
   /\ getitem c a l = option_map vals (select_ids l t)
-  /\ (ts a = false -> filter_with_ids a l = select_ids l t)
+  /\ filter_with_ids a l = select_ids l t
   /\ (forall ks, ids2indices a l = Some ks -> slice c a (ByPos ks) = select_ids l t)
   /\ (forall r, select_ids l t = Some r ->
         ids r = l /\ forall i, In i l -> lookup i r = lookup i t).
@@ -292,12 +291,41 @@ Proof.
   intros HI Hd t. destruct HI as [ND [D I]]. rewrite D in Hd. inversion Hd; subst d.
   assert (Et : t = frame a) by (unfold t, ids_view; apply combine_ids_vals).
   rewrite Et. unfold getitem, filter_with_ids; simpl. repeat split; auto.
-  - intros ->. reflexivity.
   - intros ks H. unfold ids2indices in H. destruct (id2index a) as [m|] eqn:Em; [|discriminate].
     rewrite (I m eq_refl) in H. apply select_pos_of_ids; auto.
     rewrite <- H. apply mapM_ext. intros; symmetry; apply lookup_enumerate.
   - eapply select_ids_ids; eauto.
   - intros i Hi. eapply select_ids_lookup; eauto.
+Qed.
+
+(* FEMAttributes.filter_with_ids: the collection filter is the member-wise
+   filter by id; each member's result has exactly the requested ids, each
+   with the row that member holds for it - whatever order the members store
+   their rows in *)
+Theorem cfilter_memberwise (ms : list (attr V)) l rs : cfilter ms l = Some rs ->
+  Forall2 (fun a r => filter_with_ids a l = Some r /\ ids r = l /\
+                      forall i, In i l -> lookup i r = lookup i (frame_view a)) ms rs.
+Proof.
+  unfold cfilter. revert rs. induction ms as [|a ms IH]; simpl; intros rs H.
+  - inversion H. constructor.
+  - destruct (filter_with_ids a l) as [r|] eqn:F; [|discriminate].
+    destruct (mapM _ ms) as [rs'|]; [|discriminate]. inversion H; subst.
+    constructor; [|apply IH; reflexivity]. split; [exact F|]. unfold filter_with_ids in F. split.
+    + eapply select_ids_ids; eauto.
+    + intros i Hi. eapply select_ids_lookup; eauto.
+Qed.
+
+(* ... and it answers iff every member holds every requested id *)
+Theorem cfilter_defined (ms : list (attr V)) l :
+  (exists rs, cfilter ms l = Some rs) <-> (forall a, In a ms -> forall i, In i l -> In i (ids_view a)).
+Proof.
+  unfold cfilter. split.
+  - intros [rs H] a Ha i Hi. destruct (In_nth_error _ _ Ha) as [k Hk].
+    destruct (mapM_nth _ _ _ H k a Hk) as [r [Hr _]].
+    apply (proj1 (select_ids_defined l (frame a))); eauto.
+  - intros H. apply mapM_Some_all. intros a Ha E.
+    destruct (proj2 (select_ids_defined l (frame a)) (H a Ha)) as [r Hr].
+    unfold filter_with_ids in E. congruence.
 Qed.
 
 (* ------------------------------------------ what the row updates write *)
